@@ -14,11 +14,16 @@ history only, never from the model's verdicts):
   sig-verifies      a commitment signature of an honest peer is rejected (Invalid*SigError)
   delivery-rejected an honest peer's update/revocation is rejected for a non-constraint reason
   internal-error    capacity assertion / fee-rate assertion / panic inside the state machine
+  forged-sig-accepted  a commitment_signed whose signature the harness corrupted is accepted
   mirror-signed     signer's remote commitment = mirror of the receiver's local commitment (same height)
   mirror-idle       nothing in flight ⇒ both views of both commitments are mirror images (byte-equal txs)
+  log-agreement     at every signature delivery the signer's state when it signed and the receiver's
+                    state now satisfy `agreeCheck` (= `LogAgreement`, the hypothesis of the *_partial
+                    theorems), evaluated on the implementation's own dumps
 -/
 import LndModel.Prelude.Lines
 import LndModel.C01.Model
+import LndModel.C01.Bounded
 
 open LndModel LndModel.Lines LndModel.C01
 
@@ -174,6 +179,7 @@ structure St where
   snapAB : List NDump := []
   snapBA : List NDump := []
   agreeChecks : Nat := 0
+  badSigs : Nat := 0
   -- statistics
   signs : Nat := 0
   sigsVerified : Nat := 0
@@ -518,7 +524,35 @@ def msgKind : Msg → String
   | .add .. => "add" | .settle _ => "settle" | .fail _ => "fail" | .fee _ => "fee"
   | .commitSig _ => "commitsig" | .revoke => "revoke"
 
+/-- a corrupted commitment_signed (the harness flipped a bit of one signature): it must be
+    rejected; the model (Go-faithful `receiveCommitGo`) predicts the state left behind. -/
+def badSigLine (s : St) (ws : List String) : IO St := do
+  let mut s ← flush s
+  let dir := ws[1]?.getD ""
+  let impl0 := resOf ws
+  let impl := if impl0.startsWith "other:invalid_partial_sig" then "invalidSig" else impl0
+  let recv := if dir == "AB" then "B" else "A"
+  s := readQ { s with ops := s.ops + 1, dirty := [recv], dead := true, badSigs := s.badSigs + 1 } ws
+  s := { s with errKinds := bump s.errKinds ("badsig_" ++ impl) }
+  if dir == "AB" then s := { s with snapAB := s.snapAB.drop 1 } else s := { s with snapBA := s.snapBA.drop 1 }
+  if impl == "ok" then
+    s ← monitor s "forged-sig-accepted" s!"{dir}: a commitment_signed with a corrupted signature was accepted"
+  else if internalErr impl then
+    s ← monitor s "internal-error" s!"{dir} commitsig-bad => {impl}"
+  if !s.modelOk then return s
+  let q := if dir == "AB" then s.qab else s.qba
+  match q with
+  | .commitSig sv :: rest =>
+    let n := if recv == "A" then s.mA else s.mB
+    let (e, n') := n.receiveCommitGo { sv with height := sv.height + 1000 }
+    let s2 := if dir == "AB" then { s with qab := rest } else { s with qba := rest }
+    if e.toString != impl then
+      mismatch s2 s!"deliver {dir} commitsig-bad: model={e.toString} impl={impl}"
+    else pure (setNode s2 recv n')
+  | _ => mismatch s s!"deliver {dir} commitsig-bad: model queue head is not a commitSig"
+
 def deliverLine (s : St) (ws : List String) : IO St := do
+  if ws[2]? == some "commitsig-bad" then return (← badSigLine s ws)
   let mut s ← flush s
   let dir := ws[1]?.getD ""
   let kind := ws[2]?.getD ""
@@ -552,8 +586,7 @@ def deliverLine (s : St) (ws : List String) : IO St := do
           decide ((newRes .rem vRa).map (absE .rem) = (newRes .loc vLb).map (absE .loc)),
           decide (viewFeePerKw (if a.cfg.initiator then vLa else vRa) a.chainR.tip.feePerKw =
                   viewFeePerKw (if a.cfg.initiator then vRb else vLb) b.chainL.tip.feePerKw)]
-        s ← mismatch s s!"{dir}: LogAgreement (hypothesis of honest_sig_verifies_partial) does not hold at this signature delivery {det}"
-        s := { s with modelOk := true }
+        s ← monitor s "log-agreement" s!"{dir}: signer (when signing) and receiver (at delivery) disagree on the inputs of the commitment: [cfg,height,our,their,fee,feePerKw,liveOurs,liveTheirs,newResOurs,newResTheirs,feeRate]={det}"
     if impl == "invalidSig" then
       s ← monitor s "sig-verifies" s!"{dir}: commitment signature of an honest peer rejected"
     else if impl == "ok" then s := { s with sigsVerified := s.sigsVerified + 1 }
@@ -645,9 +678,23 @@ def step (s : St) (line : String) : IO St := do
 end LndModel.C01.Driver
 
 open LndModel.C01.Driver in
-def main : IO Unit := do
+def main (args : List String) : IO Unit := do
   let s ← LndModel.Lines.foldStdin step {}
   let s ← flush s
+  -- bounded exhaustive exploration of the model's two-party system (not a proof; see Bounded.lean)
+  let depth := (args.findSome? fun a => if a.startsWith "--bounded=" then (a.drop 10).toNat? else none).getD 0
+  let depth := if depth > 0 && s.cases > 400 then depth + 1 else depth
+  let s ← if depth == 0 then pure s else do
+    let b := LndModel.C01.Bounded.run depth
+    IO.println s!"STAT bounded_depth={depth}"
+    IO.println s!"STAT bounded_states={b.states}"
+    IO.println s!"STAT bounded_sig_deliveries={b.sigDeliveries}"
+    IO.println s!"STAT bounded_idle_states={b.idleStates}"
+    IO.println s!"STAT bounded_dead_branches={b.deadBranches}"
+    IO.println s!"STAT bounded_failures={b.failures}"
+    if b.failures > 0 then
+      mismatch { s with caseId := "bounded", caseMismatch := 0 } s!"bounded exploration of the model's System: {b.firstFailure.getD ""}"
+    else pure s
   IO.println s!"STAT lines={s.lines}"
   IO.println s!"STAT cases={s.cases}"
   IO.println s!"STAT evaluations={s.ops}"
@@ -658,6 +705,7 @@ def main : IO Unit := do
   IO.println s!"STAT signatures_verified={s.sigsVerified}"
   IO.println s!"STAT mirror_signed_checks={s.mirrorSigned}"
   IO.println s!"STAT log_agreement_checks={s.agreeChecks}"
+  IO.println s!"STAT corrupted_signatures_delivered={s.badSigs}"
   IO.println s!"STAT idle_mirror_checks={s.idleChecks}"
   IO.println s!"STAT dust_htlcs_on_commitments={s.dustHtlcs}"
   IO.println s!"STAT nondust_htlcs_on_commitments={s.nondustHtlcs}"
